@@ -1,5 +1,6 @@
 """C14 — format strings are segmented exactly as the printf mini-language says."""
 import json
+import re
 import os
 
 from .. import facts as F
@@ -109,9 +110,53 @@ def run(c, facts, tier):
             witness="-printf '\\0123'  (must be Ascii(0o012) then literal \"3\")" if not (st["min"] == 3 and st["max"] == 3) else None,
         )
         c.ob("C14.octal", SPECIAL, "radix 8 into %s" % spec["octal"]["variant"], r["radix"] == 8 and r["ctor"] is not None and r["ctor"].endswith("::" + spec["octal"]["variant"]), "from_str_radix(_, %s) mapped by %s" % (r["radix"], r["ctor"]))
+        from ..valueflow import compose_maps
+
+        comp = compose_maps(list(reversed(a.maps)), facts, b, {"__module": facts.fn(SPECIAL).module, "__tsubst": {}}, "FormatSpecial")
+        want_comp = "FormatSpecial::%s(%s::from_str_radix(X,8).unwrap())" % (spec["octal"]["variant"], r["ty"])
+        okc = comp is not None and re.sub(r"\s", "", comp) == want_comp
+        c.ob("C14.octal", SPECIAL, "the element carries exactly the octal value of the digits", okc, "digits X become `%s`; required `%s` (no masking, offset or other arithmetic)" % (comp, want_comp), witness="-printf '\\501'  (must be Ascii(0o501))" if not okc else None)
         # ordering: the run must be tried before any literal alternative starting with one of its digits
         bad = [x.lit for x in ealts if x.lit and x.idx < a.idx and peg.cs_has(st["cs"], x.lit[0])]
         c.ob("C14.octal", SPECIAL, "octal run precedes the single-digit escapes", not bad, "literal alternatives %s are tried before the octal run: \\012 would be read as \\0 followed by '12'" % bad if bad else "the run is tried first")
+    # ------------------------------------------------------------------ how the format argument is delimited
+    from ..anchors import Anchors
+
+    an = Anchors(facts, b)
+    tokfn = an.role("token")
+    sfn = "<String as Parseable>::parse"
+    wordfn = None
+    if sfn in facts.fns:
+        nd = single_body(b.fn_ir(sfn))
+        while nd is not None and nd["t"] in ("map", "ctx", "cut"):
+            nd = nd["p"]
+        wordfn = nd["fn"] if nd is not None and nd["t"] == "ref" else None
+    ndel = 0
+    for a_ in kw.alternatives(g, tokfn):
+        for x in kw.flatten_rest(g, a_.rest):
+            n_ = unwrap(x["n"])
+            hops = 0
+            while n_["t"] == "ref" and hops < 4 and n_["fn"] != VEC:
+                # argument parsers reached through a helper function
+                fbx = g.deref(n_)
+                sb = single_body(fbx) if not fbx.get("returns_parser") else None
+                if sb is None:
+                    break
+                n_ = unwrap(sb)
+                hops += 1
+            if n_["t"] == "andthen" and unwrap(n_["inner"])["t"] == "ref" and unwrap(n_["inner"])["fn"] == VEC:
+                ndel += 1
+                outer_ = unwrap(n_["outer"])
+                ok_ = outer_["t"] == "ref" and wordfn is not None and outer_["fn"] == wordfn
+                c.ob(
+                    "C14.literals",
+                    a_.site,
+                    "%s: the format string is the argument word, delimited like every other string argument" % a_.lit,
+                    ok_,
+                    "the text handed to the format parser is delimited by %s; the word parser of string arguments is %s — another delimiter changes where the format ends (and so its last elements)" % (outer_.get("fn") or peg.show(outer_)[:60], wordfn),
+                    witness="%s 'dir\\'" % a_.lit if not ok_ else None,
+                )
+    c.ob("C14.literals", tokfn, "format-taking keywords found", ndel >= 2, "%d keyword arguments are parsed by the format parser" % ndel, nontrivial=False)
     # ------------------------------------------------------------------ other backslash
     last = unwrap(outer[-1])
     okb = len(outer) == 2 and last["t"] == "value" and unwrap(last["p"])["t"] == "lit" and unwrap(last["p"])["s"] == "\\" and rx.path_str(last["v"]) is not None and rx.canon_path(rx.path_str(last["v"]), scope) == "FormatSpecial::" + spec["other_backslash"]
@@ -211,6 +256,9 @@ def run(c, facts, tier):
     c.ob("C14.literals", VEC, "scanner tries an element before extending the literal at every position", ok_struct, det)
     c.ob("C14.literals", VEC, "a literal before an element is emitted only when non-empty, in order [literal, element]", ok_pair, "pair closure: %s" % (src(unwrap(vb["p"])["items"][0]["p"]) if False else "match on the literal's length; 0 → [el], otherwise [Literal(lit), el]"))
     c.ob("C14.literals", VEC, "pairs are concatenated in input order", ok_fold, "fold(vec![], |acc, e| { acc.extend(e); acc })")
+    from .. import mir as _mir
+
+    _mir.order_rule(c, facts, "C14.literals", [VEC], "elements and literal characters must keep the order of the format string")
     c.ob("C14.literals", VEC, "the trailing literal is emitted only when non-empty, after all elements", ok_suffix, "suffix closure guards on !suffix.is_empty() and pushes Literal(suffix) last")
     # maximality premises: '%' and '\' always start an element or a hard error
     f1 = g.first(b.fn_ir(FIELD))
